@@ -1,6 +1,8 @@
 package main
 
 import (
+	"os"
+	"runtime/debug"
 	"fmt"
 	"go/token"
 	"go/types"
@@ -98,6 +100,9 @@ func (s *State) Assume(t *T) {
 			s.Assume(a)
 		}
 		return
+	}
+	if dbg := os.Getenv("GVC_DEBUG_ASSUME"); dbg != "" && strings.HasPrefix(t.String(), dbg) {
+		fmt.Fprintf(os.Stderr, "assume %s\n%s\n", t.String(), debug.Stack())
 	}
 	s.PC = append(s.PC, t)
 }
